@@ -200,6 +200,23 @@ def step (st : State) (w : List String) : State × String :=
       let ps := persistVer ps (ps.version - 1)
       ({ st with ps := ps }, s!"lp={ps.lastPersisted} {fileStr ps.main}")
     | _, _ => (st, "bad-op")
+  | ["bl", "iserve", name, qt] =>
+    -- internal sub-query: the blocklist is part of the sub-pipeline, same decision and reply
+    match hexStr name, qt.toNat? with
+    | some q, some t => (st, serveStr (serveDNS st.cfg st.ps.mem q t))
+    | _, _ => (st, "bad-op")
+  | ["bl", "len"] => (st, s!"len={st.ps.mem.length} ver={st.ps.version} lp={st.ps.lastPersisted}")
+  | ["bl", "bulk", kind, n, sfx] =>
+    match n.toNat?, hexStr sfx with
+    | some n, some sfx =>
+      let ks := (List.range n).map fun i => (toString i).toList ++ '.' :: sfx
+      let op : MutOp := if kind == "set" then .setBatch ks else .removeBatch ks
+      let cnt := applyOpCount st.ps.mem op
+      let ps := Blocklist.step st.ps (.mutate op)
+      let ps := if ps.version > st.ps.version
+        then run ps (persistSteps ps (ps.pending.length - 1) 0) else ps
+      ({ st with ps := ps }, toString cnt)
+    | _, _ => (st, "bad-op")
   | ["bl", "wserve", name, qt] =>
     -- wire-born request: the handler's decision and reply are those of the message-born one
     match hexStr name, qt.toNat? with
